@@ -1,7 +1,7 @@
 #!/bin/sh
 # usage: tools_try_mutant.sh <patch> <prop> [extra check args]   -- applies a seeded change to /repo, runs the quick check, reverts
 patch="$1"; prop="$2"; shift 2
-git -C /repo apply "$patch" || { echo "patch does not apply"; exit 9; }
+git -C /repo apply "$patch" 2>/dev/null || git -C /repo apply -C1 --recount "$patch" 2>/dev/null || (cd /repo && patch -p1 -s --no-backup-if-mismatch < "$patch") || { echo "patch does not apply"; git -C /repo checkout -- .; exit 9; }
 ./check "$prop" --quick "$@" > /tmp/mut_out.txt 2>&1; rc=$?
 git -C /repo checkout -- .
 grep -E "^(VIOLATION|UNDECIDED|ERROR|OUT-OF-REACH|KNOWN|C[0-9]+ quick)" /tmp/mut_out.txt | cut -c1-300 | head -12
